@@ -581,10 +581,11 @@ class _CUR(GreedySelector):
         """
         for c in self.selected_idx_:
             # the residual of an already selected item is round-off, whose size scales
-            # with the data: compare it to the norm of the item itself
+            # with the data and with the precision of the working array (float32
+            # input): compare it to the norm of the item itself
             if self.recompute_every != 0 and (
                 np.linalg.norm(np.take(self.X_current_, [c], axis=self._axis))
-                > self.tolerance
+                > max(self.tolerance, 100 * np.finfo(self.X_current_.dtype).eps)
                 * max(1.0, np.linalg.norm(np.take(X, [c], axis=self._axis)))
             ):
                 self._orthogonalize(last_selected=c)
@@ -766,10 +767,11 @@ class _PCovCUR(GreedySelector):
         """
         for c in self.selected_idx_:
             # the residual of an already selected item is round-off, whose size scales
-            # with the data: compare it to the norm of the item itself
+            # with the data and with the precision of the working array (float32
+            # input): compare it to the norm of the item itself
             if self.recompute_every != 0 and (
                 np.linalg.norm(np.take(self.X_current_, [c], axis=self._axis))
-                > self.tolerance
+                > max(self.tolerance, 100 * np.finfo(self.X_current_.dtype).eps)
                 * max(1.0, np.linalg.norm(np.take(X, [c], axis=self._axis)))
             ):
                 self._orthogonalize(last_selected=c)
